@@ -1,8 +1,8 @@
-SPECIFICATION Spec
+SPECIFICATION TSpec
 CONSTANTS
   BoundedWalk = TRUE
   MaxLinkMaps = 4
   NNodes = 2
-INVARIANTS Total NoDevOpen WalkBounded
-PROPERTY Terminates
+INVARIANT Verdict
+POSTCONDITION Accepted
 CHECK_DEADLOCK FALSE
